@@ -33,12 +33,13 @@ theorem C01_every_path_once (G : Graph S) (wf : G.WF) (lawful : G.Lawful) (fuel 
 
 /-- **The gradient left on `ℓ` is the path sum of the seed** (coordinate by coordinate). -/
 theorem C01_backward_pathsum [AddLaws S] {G : Graph S} (sem : Sem G) (wf : G.WF) (lawful : G.Lawful)
-    (ℓ j fuel root : Nat) (hf : root < fuel) (dims : List Nat) (seed : Option (Tensor S)) (σ σ' : EState S)
+    (ℓ j fuel root : Nat) (hkeep : ∀ n s, s ∈ G.kids n → s.tracked = true → s.node = ℓ → ((G.kids ℓ).isEmpty || s.keep) = stores sem ℓ)
+    (hf : root < fuel) (dims : List Nat) (seed : Option (Tensor S)) (σ σ' : EState S)
     (hclean : σ.Clean) (hlog : σ.log = []) (hg : ∀ g, σ.grad ℓ = some g → Shaped (sem.dimsOf ℓ) g)
     (x : Tensor S) (hseed : seedOrOnes seed dims = .ok x) (hxs : Shaped (sem.dimsOf root) x)
     (hok : backward G fuel root dims (sem.κ root) seed σ = .ok σ') :
     gradVal ℓ j σ' = gradVal ℓ j σ + P sem ℓ j root x :=
-  (backward_pathsum sem ℓ j wf lawful fuel root hf dims seed σ σ' hclean hlog hg x hseed hxs hok).1
+  (backward_pathsum sem ℓ j wf hkeep lawful fuel root hf dims seed σ σ' hclean hlog hg x hseed hxs hok).1
 
 /-- What the path sum is: the delta itself where the node stores its gradient, plus the path sums of
     the contributions to every tracked stored operand — i.e. the sum over all tracked paths. -/
@@ -52,12 +53,13 @@ theorem C01_leaf_stores {G : Graph S} (sem : Sem G) (m : Nat) (h : G.kids m = []
 
 /-- the gradient stored afterwards has exactly the node's shape (C03 for the observed cell) -/
 theorem C01_grad_shape [AddLaws S] {G : Graph S} (sem : Sem G) (wf : G.WF) (lawful : G.Lawful)
-    (ℓ fuel root : Nat) (hf : root < fuel) (dims : List Nat) (seed : Option (Tensor S)) (σ σ' : EState S)
+    (ℓ fuel root : Nat) (hkeep : ∀ n s, s ∈ G.kids n → s.tracked = true → s.node = ℓ → ((G.kids ℓ).isEmpty || s.keep) = stores sem ℓ)
+    (hf : root < fuel) (dims : List Nat) (seed : Option (Tensor S)) (σ σ' : EState S)
     (hclean : σ.Clean) (hlog : σ.log = []) (hg : ∀ g, σ.grad ℓ = some g → Shaped (sem.dimsOf ℓ) g)
     (x : Tensor S) (hseed : seedOrOnes seed dims = .ok x) (hxs : Shaped (sem.dimsOf root) x)
     (hok : backward G fuel root dims (sem.κ root) seed σ = .ok σ') :
     ∀ g, σ'.grad ℓ = some g → Shaped (sem.dimsOf ℓ) g :=
-  (backward_pathsum sem ℓ 0 wf lawful fuel root hf dims seed σ σ' hclean hlog hg x hseed hxs hok).2
+  (backward_pathsum sem ℓ 0 wf hkeep lawful fuel root hf dims seed σ σ' hclean hlog hg x hseed hxs hok).2
 
 
 /-- **Every path once, in every reachable state**: the value-free half holds for the pass on any
@@ -73,7 +75,8 @@ theorem C01_every_path_once_reachable {σ σ' : State S} (hr : Reachable σ) (v 
     `C01_backward_pathsum` (well-founded, lawful, clean start) are discharged by the reachability
     invariant; what remains assumed is `Sem` — the per-operation value laws (C02). -/
 theorem C01_backward_pathsum_reachable [AddLaws S] {σ : State S} (hr : Reachable σ) (sem : Sem σ.graph)
-    (ℓ j : Nat) (v : String) (h : Handle) (seed : Option (Tensor S)) (hg : σ.get v = .ok h)
+    (ℓ j : Nat) (hkeep : ∀ n s, s ∈ σ.graph.kids n → s.tracked = true → s.node = ℓ → ((σ.graph.kids ℓ).isEmpty || s.keep) = stores sem ℓ)
+    (v : String) (h : Handle) (seed : Option (Tensor S)) (hg : σ.get v = .ok h)
     (hk : σ.graph.kids h.node = [] ∨ h.keep = sem.κ h.node)
     (hgr : ∀ g, σ.estate.grad ℓ = some g → Shaped (sem.dimsOf ℓ) g)
     (x : Tensor S) (hseed : seedOrOnes seed h.dims = .ok x) (hxs : Shaped (sem.dimsOf h.node) x)
@@ -92,8 +95,15 @@ theorem C01_backward_pathsum_reachable [AddLaws S] {σ : State S} (hr : Reachabl
         | error e => rfl
         | ok x => exact process_leaf_keep _ _ _ _ _ _ hleaf
     · rw [← hk]; exact hok
-  exact (backward_pathsum sem ℓ j (graph_wf σ hr.good.heap) (graph_lawful σ hr.good.heap) (σ.nodes.size + 1) h.node
+  exact (backward_pathsum sem ℓ j (graph_wf σ hr.good.heap) hkeep (graph_lawful σ hr.good.heap) (σ.nodes.size + 1) h.node
     (by have := hv.1; omega) h.dims seed σ.estate e (estate_clean σ hr.good.heap) rfl hgr x hseed hxs hok).1
+
+/-- **For a leaf no assumption about keep flags is left**: a node without stored operands always
+    stores its gradient, so the keep-flag hypothesis of the path-sum theorem is vacuous — whatever mixture
+    of `tracked()`, `start_tracking()`, clones and re-flagged handles built the graph. -/
+theorem C01_leaf_needs_no_keep [AddLaws S] {G : Graph S} (sem : Sem G) (ℓ : Nat) (hleaf : G.kids ℓ = []) :
+    ∀ n s, s ∈ G.kids n → s.tracked = true → s.node = ℓ → ((G.kids ℓ).isEmpty || s.keep) = stores sem ℓ := by
+  intro n s _ _ _; simp [stores, hleaf]
 
 end Corgi
 
@@ -104,3 +114,4 @@ end Corgi
 #print axioms Corgi.C01_grad_shape
 #print axioms Corgi.C01_every_path_once_reachable
 #print axioms Corgi.C01_backward_pathsum_reachable
+#print axioms Corgi.C01_leaf_needs_no_keep
